@@ -1141,6 +1141,28 @@ def rocc(repo: Repo, chk: Check) -> None:
             a, b = (ast.unparse(x.slice) for x in n.elts)  # type: ignore[attr-defined]
             if a.endswith("'.rs1'") and b.endswith("'.rs2'") and a[:-6] == b[:-6]:
                 pair_ok = True
+            # the two field names may come, in this order, out of a helper: `for rs1, rs2 in [_operand_fields(insn)]` / `rs1, rs2 = _operand_fields(insn)` with
+            # `return insn + ".rs1", insn + ".rs2"`
+            sa_, sb_ = (x.slice for x in n.elts)  # type: ignore[attr-defined]
+            if isinstance(sa_, ast.Name) and isinstance(sb_, ast.Name):
+                srcs_ = []
+                for m_ in ast.walk(cf.node):
+                    if isinstance(m_, ast.comprehension) and isinstance(m_.target, ast.Tuple) and [getattr(e_, "id", None) for e_ in m_.target.elts] == [sa_.id, sb_.id] \
+                            and isinstance(m_.iter, (ast.List, ast.Tuple)) and len(m_.iter.elts) == 1:
+                        srcs_.append(m_.iter.elts[0])
+                    if isinstance(m_, ast.Assign) and isinstance(m_.targets[0], ast.Tuple) and [getattr(e_, "id", None) for e_ in m_.targets[0].elts] == [sa_.id, sb_.id]:
+                        srcs_.append(m_.value)
+                for src_ in srcs_:
+                    if isinstance(src_, ast.Tuple) and len(src_.elts) == 2:  # the helper as inlined by the normal form
+                        ta, tb = (ast.unparse(e_) for e_ in src_.elts)
+                        if ta.endswith("'.rs1'") and tb.endswith("'.rs2'") and ta[:-6] == tb[:-6]:
+                            pair_ok = True
+                    if isinstance(src_, ast.Call) and isinstance(src_.func, ast.Name) and src_.func.id in cf.module.funcs:
+                        rets_ = [r_.value for r_ in ast.walk(cf.module.funcs[src_.func.id].node) if isinstance(r_, ast.Return) and r_.value is not None]
+                        if len(rets_) == 1 and isinstance(rets_[0], ast.Tuple) and len(rets_[0].elts) == 2:
+                            ta, tb = (ast.unparse(e_) for e_ in rets_[0].elts)
+                            if ta.endswith("'.rs1'") and tb.endswith("'.rs2'") and ta[:-6] == tb[:-6]:
+                                pair_ok = True
     asm_ok = False
     for n, s in ((n, n.args[0]) for n in ast.walk(asm.node) if isinstance(n, ast.Call) and callee_name(n) == "InlineAsmOp" and n.args):
         txt = ast.unparse(s)
